@@ -457,8 +457,15 @@ class TaskDef:
             # No parents at any point
             return True
         if self.sequential:
-            # Implicit parents
-            return False
+            # Implicit parent: my previous instance (which spawns me when it
+            # succeeds) - unless there is none at or after the cutoff.
+            prev_points = [
+                prev
+                for seq in self.sequences
+                if (prev := seq.get_nearest_prev_point(point)) is not None
+            ]
+            if prev_points and max(prev_points) >= cutoff:
+                return False
         parent_points = self.get_parent_points(point)
         return (
             not parent_points
